@@ -4,6 +4,9 @@
 
 #![allow(dead_code)]
 mod checks;
+mod gen;
+mod ops;
+mod scene;
 mod json;
 mod known;
 mod prng;
